@@ -60,7 +60,38 @@ def run_kernel(P, order: OrderType, t1="t1", t2="t2"):
             return next(iter(x.terms)) in order.nan
         raise Unmodelled(f"np.isnan of {x!r}", node)
 
-    ev = KernelEval(P, order, models={"numpy.isnan": m_isnan})
+    def is_nan(x):
+        return isinstance(x, Lin) and len(x.terms) == 1 and x.const == 0 and next(iter(x.terms)) in order.nan
+
+    def extremum(which, nan_aware):
+        """np.fmin / np.fmax (a missing operand is ignored) and np.minimum / np.maximum (it propagates) on two 1-D arrays or scalars,
+        decided element by element through the order type."""
+        def pick(a, b, node):
+            if is_nan(a) or is_nan(b):
+                if nan_aware:
+                    return b if is_nan(a) else a  # both missing: missing
+                return a if is_nan(a) else b
+            la, lb = Lin.of(a), Lin.of(b)
+            if la is None or lb is None:
+                raise Unmodelled(f"np.{which} of {a!r} and {b!r}", node)
+            sgn = order.sign_of_difference(la - lb)
+            if sgn not in ("neg", "zero", "pos"):
+                raise Unmodelled(f"np.{which}: order of {a!r} and {b!r} not decided", node)
+            smaller, larger = (a, b) if sgn in ("neg", "zero") else (b, a)
+            return smaller if which.endswith("min") or which == "minimum" else larger
+
+        def m(ev_, args, kw, node):
+            a, b = args[0], args[1]
+            if isinstance(a, list) and isinstance(b, list) and len(a) == len(b):
+                return [pick(x, y, node) for x, y in zip(a, b)]
+            if not isinstance(a, list) and not isinstance(b, list):
+                return pick(a, b, node)
+            raise Unmodelled(f"np.{which} of operands of different shape", node)
+
+        return m
+
+    ev = KernelEval(P, order, models={"numpy.isnan": m_isnan, "numpy.fmin": extremum("fmin", True), "numpy.fmax": extremum("fmax", True),
+                                      "numpy.minimum": extremum("minimum", False), "numpy.maximum": extremum("maximum", False)})
     # cell 0 is a fixed homogeneous cell strictly inside the last bin; cell 1 is the cell under study
     out = [0] * NB
     outs = ev.run_paths(fi, lambda: dict(phi=[Data("phi0"), Data("phi1")], theta_1=[lin("t3"), lin(t1)], theta_2=[lin("t3"), lin(t2)],
